@@ -112,7 +112,7 @@ def judge(cases, obs, tier):
         live.append(i)
     terms = [_term(cases[i], obs[i]) for i in live]
     fails, errs = vf.coq_eval_sharded("From DT Require Import Lib.Bytes Model.C18_Discovery.", terms, "disc_agree",
-                                      per_shard=60 if tier == "quick" else 400)
+                                      per_shard=60 if tier == "quick" else 400, case_type="disc_case")
     errors += errs
     for f in fails:
         model[live[f]] = "Coq model run_disc differs from the implementation's sorted server list"
